@@ -137,6 +137,21 @@ func c15eval(r *vx.R, c c15case, pts map[string]sm2ref.Point) {
 			r.Violation(key+":operand2-modified", "second operand was written", c)
 		}
 	}
+	// results must not share storage with their operands: mutate the result in place and look at the operands again
+	if q != p1 && q != p2 {
+		q.Double(q)
+		x, y, z := vxCoords(p1)
+		if x.Cmp(keep1x) != 0 || y.Cmp(keep1y) != 0 || z.Cmp(keep1z) != 0 {
+			r.Violation(key+":result-aliases-operand1", fmt.Sprintf("after %s, changing the result in place (Double) changed the first operand: they share storage", c.Op), c)
+		}
+		x, y, z = vxCoords(p2)
+		if x.Cmp(keep2x) != 0 || y.Cmp(keep2y) != 0 || z.Cmp(keep2z) != 0 {
+			r.Violation(key+":result-aliases-operand2", fmt.Sprintf("after %s, changing the result in place (Double) changed the second operand: they share storage", c.Op), c)
+		}
+		if !vxToRef(q).Equal(sm2ref.Add(want, want)) {
+			r.Violation(key+":followup-double-wrong", fmt.Sprintf("%s then Double in place gives a wrong point", c.Op), c)
+		}
+	}
 	r.Shape(fmt.Sprintf("%s:%s:%s:%d:%d:%s:%s", c.Op, c.A, c.B, c.Alias, c.Cond, c.LA[:2], c.LB[:2]))
 }
 
